@@ -214,6 +214,18 @@ func init() {
 	V("AllocLimit", func(fr *frame, args []value) value { needEx(fr).AllocLimit = asInt64(args[0]); return nil })
 	V("ForkLimit", func(fr *frame, args []value) value { needEx(fr).ForkLimit = int(asInt64(args[0])); return nil })
 	V("Tier", func(fr *frame, args []value) value { return Tier })
+	V("CaptureLogs", func(fr *frame, args []value) value { needEx(fr).CaptureLogs = true; return nil })
+	V("LogContains", func(fr *frame, args []value) value {
+		e := needEx(fr)
+		needle := args[0].([]value)
+		var ds []*smt.Term
+		for _, hay := range e.logSink {
+			for i := 0; i+len(needle) <= len(hay); i++ {
+				ds = append(ds, bytesEqTerm(e.Ctx, hay[i:i+len(needle)], needle))
+			}
+		}
+		return mkBoolVal(e.Ctx.BOr(ds...))
+	})
 	V("FreshASCII", func(fr *frame, args []value) value { needEx(fr).FreshASCII = true; return nil })
 	V("AllowTagsInFresh", func(fr *frame, args []value) value { needEx(fr).AllowTagsInFresh = true; return nil })
 	V("Log", func(fr *frame, args []value) value { return nil })
